@@ -291,6 +291,62 @@ theorem keeps_loopF (F : FloatOps) (fuel : Nat) : Keeps P (loopF F fuel) := by
   induction fuel with
   | zero => unfold loopF; keeps
   | succ n ih => unfold loopF; keeps
+
+theorem Keeps.of_run {α} {m : M α} (hm : Keeps P m) {s : State} {r : Except Exc α} {s' : State}
+    (hs : P s) (h : m.run.run s = (r, s')) : P s' := by
+  have := hm.elim s hs
+  unfold exec at this
+  rw [h] at this
+  exact this
+
+theorem finish_keeps (s : State) (h : P s) : P (runFrom.finish s).2 := by
+  unfold runFrom.finish
+  split
+  · exact h
+  · split
+    · have hm : Keeps P (do
+          let v ← stackGet (s.sp - 1)
+          match v with
+          | .box a => do match (← heapGet a) with | .box v => pure v | _ => unsupported "model: bad box"
+          | v => pure v : M V) := by keeps
+      split <;> (rename_i heq; exact hm.of_run h heq)
+    · exact h
+
+theorem go_keeps (F : FloatOps) (reruns : Nat) : ∀ (fuel : Nat) (s : State), P s → P (runFrom.go F reruns fuel s).2 := by
+  induction reruns with
+  | zero => intro fuel s h; unfold runFrom.go; exact h
+  | succ n ih =>
+    intro fuel s h
+    unfold runFrom.go
+    split
+    · rename_i heq; exact (keeps_loopF F fuel).of_run h heq
+    · rename_i heq
+      have h1 := (keeps_loopF F fuel).of_run h heq
+      split
+      rename_i heq2
+      exact finish_keeps _ (keeps_clearCurrentFrame.of_run h1 heq2)
+    · rename_i heq; exact (keeps_loopF F fuel).of_run h heq
+    · rename_i m s1 heq
+      have h1 := (keeps_loopF F fuel).of_run h heq
+      split
+      · split
+        · rename_i heq2; exact (keeps_handlePanic m).of_run h1 heq2
+        · rename_i heq2; exact (keeps_handlePanic m).of_run h1 heq2
+        · rename_i heq2
+          have h2 := (keeps_handlePanic m).of_run h1 heq2
+          split
+          · exact ih _ _ h2
+          · exact finish_keeps _ h2
+      · exact h1
+
+/-- `Run` on any prior state leaves the bytecode fields as they were -/
+theorem runFrom_keeps (F : FloatOps) (fuel : Nat) (g : V) (args : List V) (s : State) (h : P s) :
+    P (runFrom F fuel g args s).2 := by
+  unfold runFrom
+  split
+  · rename_i heq; exact (keeps_prologue g args).of_run h heq
+  · rename_i heq; exact (keeps_prologue g args).of_run h heq
+  · rename_i heq; exact go_keeps F fuel fuel _ ((keeps_prologue g args).of_run h heq)
 end
 
 end UgoVerif.VM
